@@ -315,50 +315,57 @@ Section Expr.
     Definition wrap (paren : bool) (s : str) : str :=
       if paren then [40%N] ++ s ++ [41%N] else s.
 
-    Fixpoint display (e : expr) : str :=
+    Definition JUXTAPOSITION_BIND_POW : nat := 4.
+    Definition starts_num (s : str) : bool := match s with c :: _ => is_num_char c | [] => false end.
+
+    (* Expr::render, with Expr::shorthand inlined: the text of e where parse_expr will read it back
+       with minimum binding power min_bp *)
+    Fixpoint render (e : expr) (min_bp : nat) : str :=
       match e with
       | ENum x => fmt x
       | EVar v => v
       | EConst c => cnst_str c
-      | EFun f i => func_str f ++ [40%N] ++ display i ++ [41%N]
-      | EPre o v => oper_str o ++ display v
+      | EFun f i => func_str f ++ [40%N] ++ render i 0 ++ [41%N]
+      | EPre o v => oper_str o ++ render v (Nat.max min_bp 2)
       | EPost o v =>
-        match v with                                  (* `(-a)!` is not `-a!` *)
-        | EPre _ _ => [40%N] ++ display v ++ [41%N] ++ oper_str o
-        | _ => display v ++ oper_str o
+        match v with
+        | EPre _ _ | EBin _ _ _ false => [40%N] ++ render v 0 ++ [41%N] ++ oper_str o
+        | _ => render v 0 ++ oper_str o
         end
       | EBin op l r paren =>
-        let implied : option str :=
+        let generic (_ : unit) : str * nat :=
+          let bp := binding_pow op in
+          let lft :=
+            match l with
+            | EPre _ _ => if (2 <? bp)%nat then [40%N] ++ render l 0 ++ [41%N] else render l bp
+            | _ => render l bp
+            end in
+          (lft ++ [32%N] ++ oper_str op ++ [32%N] ++ render r (bp + 1), bp) in
+        let '(text, bp) :=
           match op with
           | OMul =>
             match l, r with
-            | ENum x, EVar v => Some (fmt x ++ v)
-            | ENum x, EConst c => Some (fmt x ++ cnst_str c)
-            | ENum x, EBin OCaret base _ pp =>          (* not when the power starts with a bare number *)
-              if pp || negb (is_number base) then Some (fmt x ++ display r) else None
-            | EVar v, ENum x => Some (v ++ fmt x)
-            | EConst c, ENum x => Some (cnst_str c ++ fmt x)
-            | _, _ => None
+            | ENum x, EVar v => (fmt x ++ v, JUXTAPOSITION_BIND_POW)
+            | ENum x, EConst c => (fmt x ++ cnst_str c, JUXTAPOSITION_BIND_POW)
+            | ENum x, EBin OCaret _ _ _ =>
+              let power := render r (JUXTAPOSITION_BIND_POW + 1) in
+              if starts_num power then generic tt else (fmt x ++ power, JUXTAPOSITION_BIND_POW)
+            | EVar v, ENum x => (v ++ fmt x, JUXTAPOSITION_BIND_POW)
+            | EConst c, ENum x => (cnst_str c ++ fmt x, JUXTAPOSITION_BIND_POW)
+            | _, _ => generic tt
             end
           | OCaret =>
             match l, r with
-            | EVar v, ENum x => Some (v ++ [94%N] ++ fmt x)
-            | EConst c, ENum x => Some (cnst_str c ++ [94%N] ++ fmt x)
-            | _, _ => None
+            | EVar v, ENum x => (v ++ [94%N] ++ fmt x, binding_pow OCaret)
+            | EConst c, ENum x => (cnst_str c ++ [94%N] ++ fmt x, binding_pow OCaret)
+            | _, _ => generic tt
             end
-          | _ => None
+          | _ => generic tt
           end in
-        match implied with
-        | Some s => wrap paren s
-        | None =>
-          let base :=                                  (* `(-x)^2` is not `-x ^ 2` *)
-            match op, l with
-            | OCaret, EPre _ _ => [40%N] ++ display l ++ [41%N]
-            | _, _ => display l
-            end in
-          wrap paren (base ++ [32%N] ++ oper_str op ++ [32%N] ++ display r)
-        end
+        if paren || (bp <? min_bp)%nat then [40%N] ++ text ++ [41%N] else text
       end.
+
+    Definition display (e : expr) : str := render e 0.
 
     (* lexer, parser (with fold) of a displayed text *)
     Definition reread (e : expr) : res expr :=
